@@ -360,19 +360,24 @@ def linspace(
     name = "linspace-" + tokenize((start, stop, num, endpoint, chunks, dtype))
 
     dsk = {}
-    blockstart = start
+    offset = 0
 
     for i, bs in enumerate(chunks[0]):
-        bs_space = bs - 1 if endpoint else bs
-        blockstop = blockstart + (bs_space * step)
+        # Every block evaluates ``start + step * index`` for its own indices and
+        # the very last sample is ``stop`` itself, as in NumPy: the values do
+        # not depend on the chunking (this matters for integer dtypes, which
+        # floor them).
+        last = endpoint and num > 1 and bs > 0 and offset + bs == num
         task = Task(
             (name, i),
-            partial(chunk.linspace, endpoint=endpoint, dtype=dtype),
-            blockstart,
-            blockstop,
+            partial(chunk.linspace, dtype=dtype),
+            start,
+            step,
+            offset,
             bs,
+            stop if last else None,
         )
-        blockstart = blockstart + (step * bs)
+        offset += bs
         dsk[task.key] = task
 
     if retstep:
